@@ -51,13 +51,14 @@ ASSUMPTIONS = ["node ids are distinct ints; no self-loops; simple undirected gra
                "the graph to the model in that order (_nx_prune_order)",
                "node attribute values compared are str or int (interned injectively); bond orders are numeric half-integers or missing",
                "MTG variant: within one case the bond order is missing on at most one of the two graphs (its _edge_match rejects a missing order even against a missing order, which the model reproduces; two-sided gaps are not generated)"]
-TESTED_NOT_PROVED = ["prune_automorphisms=True (representative depends on VF2 enumeration order): oracle only -- every kept mapping valid, "
-                     "maximum, host-node sets pairwise distinct and covering the host sets of all maximum mappings",
+TESTED_NOT_PROVED = ["prune_automorphisms=True: WHICH mapping represents a host node set is VF2's choice (first in its enumeration order) -- the "
+                     "kept mappings are judged by the oracle only (valid, maximum, host sets pairwise distinct); orientation, size, subsets "
+                     "tried and the SET of represented host node sets are modelled and compared (run_matcher_auto, C12_prune_auto_host_sets)",
                      "mcs_mol (molecule-level greedy matching keeps VF2's first isomorphism): oracle only (validity of the combined mapping)",
                      "derived views of a matcher object (mappings, num_mappings, mapping_direction, iteration, repr, repeated and re-ordered "
                      "get_mappings reads, reads after the caller edited earlier results): checked by the adapter against the stored result "
                      "after every step of every history"]
-LEVEL_TEXT = ("Machine-checked proof (Coq, 24 theorems in coq/props/C12.v, all closed under the global context) over an executable model "
+LEVEL_TEXT = ("Machine-checked proof (Coq, 25 theorems in coq/props/C12.v, all closed under the global context) over an executable model "
               "of MCSMatcher._search_subgraphs / _prune_graph / _prepare_orientation / find_common_subgraph / get_mappings (both copies of "
               "the matcher), for all pairs of graphs with distinct node ids: every returned mapping (both modes, all three directions, after "
               "orientation swap and wildcard pruning) is a function, injective, label-preserving, and preserves presence AND order of every "
@@ -182,6 +183,10 @@ def impl(case):
     M, cnt = _run(case)
     if case["variant"] == "matcher":
         assert M.get_mappings() == M.mappings
+    if case.get("prune_auto") and not case.get("mode"):
+        # which representative survives is VF2's choice; compared: orientation, size, subsets tried and the SET of host node sets
+        # (one survivor per host set: a duplicate host set would show up twice here and break the comparison with the model)
+        return [M._last_pattern_is_G1, M.last_size, cnt, S([sorted(int(v) for v in m.values()) for m in M.get_mappings()])]
     return _obs(M, cnt, case["variant"])
 
 
@@ -358,7 +363,9 @@ def _run_history(case):
 # ------------------------------------------------------------------ model encoder
 
 def _in_domain(case):
-    if case.get("prune_auto") or case.get("mode") not in (None, "component") or (case.get("mode") and case["variant"] != "matcher"):
+    if case.get("mode") not in (None, "component") or (case.get("mode") and case["variant"] != "matcher"):
+        return False
+    if case.get("prune_auto") and (case.get("mode") or case["variant"] != "matcher"):
         return False
     for g in (case["g1"], case["g2"]):
         ids = [n for n, _ in g["nodes"]]
@@ -434,7 +441,8 @@ def coq_case(case):
     defs = clist([cN(I(d)) for d in case["node_defaults"]])
     g1, g2 = _coq_graph(_nx_prune_order(case["g1"], case), case, I), _coq_graph(_nx_prune_order(case["g2"], case), case, I)
     if case["variant"] == "matcher":
-        return "%s %s %s %s %s %s %s" % ("run_component" if case.get("mode") == "component" else "run_matcher", defs, cbool(case.get("prune_wc", False)), cN(I(_wc(case))), g1, g2,
+        return "%s %s %s %s %s %s %s" % ("run_component" if case.get("mode") == "component" else
+                                         "run_matcher_auto" if case.get("prune_auto") else "run_matcher", defs, cbool(case.get("prune_wc", False)), cN(I(_wc(case))), g1, g2,
                                                   cbool(case["mcs"]))
     return "run_mtg %s %s %s %s" % (defs, g1, g2, cbool(case["mcs"]))
 
@@ -566,6 +574,14 @@ def oracle(case):
     return _judge(case, _views(M, case["variant"]))[:3]
 
 
+def _msizes(case, obs):
+    """Sizes of the returned mappings, from the observable (prune_automorphisms: sizes of the host node sets)."""
+    if case.get("prune_auto") and not case.get("mode") and case["variant"] == "matcher":
+        return [len(h) for h in obs[3]["__set__"]]
+    ms = obs[3] if case["variant"] == "matcher" else obs[2]
+    return [len(m["__set__"]) for m in ms]
+
+
 def nontrivial(case, obs):
     if "steps" in case:
         return len(case["steps"]) >= 2 and any(nontrivial(_sub(case, st), o[0]) for st, o in zip(case["steps"], obs))
@@ -573,8 +589,7 @@ def nontrivial(case, obs):
         return False
     if case["g1"] == case["g2"]:
         return False
-    ms = obs[3] if case["variant"] == "matcher" else obs[2]
-    return any(len(m["__set__"]) >= 2 for m in ms)
+    return any(k >= 2 for k in _msizes(case, obs))
 
 
 def distribution(cases, obss):
@@ -601,8 +616,8 @@ def distribution(cases, obss):
         key = "%s/%s" % (c["variant"], "mcs" if c["mcs"] else "all")
         modes[key] = modes.get(key, 0) + 1
         if isinstance(o, list) and o and o[0] != "EXC":
-            ms = o[3] if c["variant"] == "matcher" else o[2]
-            k = max([len(m["__set__"]) for m in ms], default=0)
+            ms = _msizes(c, o)
+            k = max(ms, default=0)
             ks[str(k)] = ks.get(str(k), 0) + 1
             b_ = "0" if not ms else "1" if len(ms) == 1 else "2-9" if len(ms) < 10 else "10-99" if len(ms) < 100 else "100+"
             nm[b_] = nm.get(b_, 0) + 1
@@ -821,7 +836,21 @@ def _oracle_only(rng, n):
         g2 = G.random_relabel(_rand(rng, rng.randint(2, 6), 0.4, elements=("C", "C", "O")), rng, 1, 15)
         r = rng.random()
         if r < 0.5:
-            out.append(_mk("prune-auto", g1, g2, True, prune_auto=True))
+            kw = {}
+            if rng.random() < 0.3:
+                for g in (g1, g2):
+                    for nd_ in g["nodes"]:
+                        if rng.random() < 0.2:
+                            nd_[1]["element"] = "*"
+                kw["prune_wc"] = True
+            if rng.random() < 0.4:       # symmetric host: many mappings per host node set
+                k = rng.randint(3, 5)
+                g2 = {"nodes": [[i, {"element": "C", "charge": 0}] for i in range(1, k + 1)],
+                      "edges": [[i, i % k + 1, {"order": 1}] for i in range(1, k + 1)]}
+                g2 = G.random_relabel(g2, rng, 1, 15)
+                if rng.random() < 0.5:
+                    g1, g2 = g2, g1
+            out.append(_mk("prune-auto", g1, g2, rng.random() < 0.6, prune_auto=True, **kw))
         elif r < 0.75:
             out.append(_mk("mcs-mol", g1, g2, True, mode="mcs_mol"))
         else:
@@ -1226,7 +1255,7 @@ def gen_cases(tier, rng):
     cases += _random_cases(rng, 900 if tier == "quick" else 9000, tier != "quick")
     cases += _low_overlap(rng, 150 if tier == "quick" else 1500)
     cases += _respelled(rng, 250 if tier == "quick" else 2500)
-    cases += _oracle_only(rng, 150 if tier == "quick" else 1500)
+    cases += _oracle_only(rng, 220 if tier == "quick" else 1500)
     cases += _histories(rng, 320 if tier == "quick" else 3000)
     cases += _histories(rng, 60 if tier == "quick" else 600, calls=("fcs", "rc_its", "component", "mcs_mol"))
     cases += _degenerate(rng, 120 if tier == "quick" else 1000)
